@@ -592,6 +592,7 @@ void janet_collect(void) {
     janet_ev_mark();
 #endif
     janet_mark_fiber(janet_vm.root_fiber);
+    if (janet_vm.top_dyns) janet_mark_table(janet_vm.top_dyns);
     for (i = 0; i < orig_rootcount; i++)
         janet_mark(janet_vm.roots[i]);
     while (orig_rootcount < janet_vm.root_count) {
